@@ -388,6 +388,8 @@ def exact_traces(ctx, quick):
         kinds = ["LTV"] + (["LTI"] if all(is_lti(I) for I in group) else [])
         for cls in kinds:
             Q = torch.tensor([I["Q"] for I in group], dtype=dtype)
+            if all(all(q == I["Q"][0] for q in I["Q"]) for I in group):
+                Q = Q[:, 0]          # the documented 3-D form of a time-constant cost: one (n+m) x (n+m) matrix per batch item
             p = torch.tensor([I["p"] for I in group], dtype=dtype)
             x0 = torch.tensor([I["x0"] for I in group], dtype=dtype)
             sysobj = build_exact_system(group, cls == "LTI", dtype, rng)
@@ -489,6 +491,9 @@ def big_traces(ctx, count):
             Qs.append(U @ torch.diag(ev_) @ U.T)
         Q = torch.stack(Qs).reshape(Bn, T, d, d)
         Q = (Q + Q.mT) / 2
+        constQ = i % 3 == 1         # a time-constant cost handed over in the 3-D form (one matrix per batch item)
+        if constQ:
+            Q = Q[:, :1].expand(-1, T, -1, -1).contiguous()
         p = torch.randn(Bn, T, d, dtype=dtype)
         x0 = torch.randn(Bn, n, dtype=dtype)
         if cls == "LTI":
@@ -497,7 +502,7 @@ def big_traces(ctx, count):
         else:
             sysobj = indexed_ltv(pp)(A, Bm, torch.eye(n, dtype=dtype).repeat(Bn, K, 1, 1), torch.zeros(Bn, K, n, m, dtype=dtype),
                                      c1, torch.zeros(Bn, K, n, dtype=dtype))
-        lqr = pp.module.LQR(sysobj, Q, p, T)
+        lqr = pp.module.LQR(sysobj, Q[:, 0].contiguous() if constQ else Q, p, T)
         refs = [reference_optimum(mpmath, A[b], Bm[b], c1[b], Q[b], p[b], x0[b], n, m, T) for b in range(Bn)]
         if max(r["cond"] for r in refs) > 1e7:
             skipped += 1
